@@ -95,6 +95,7 @@ func (c *contentValidator) ValidateAccountsAdd(ch *aclrecordproto.AclAccountsAdd
 	if !authorPerms.CanManageAccounts() {
 		return ErrInsufficientPermissions
 	}
+	seenIdentities := map[string]struct{}{}
 	for _, ch := range ch.Additions {
 		identity, err := c.keyStore.PubKeyFromProto(ch.Identity)
 		if err != nil {
@@ -103,6 +104,12 @@ func (c *contentValidator) ValidateAccountsAdd(ch *aclrecordproto.AclAccountsAdd
 		if !c.aclState.Permissions(identity).NoPermissions() {
 			return ErrDuplicateAccounts
 		}
+		// the same account twice in one record: the state above is only updated after the whole list is validated
+		idKey := mapKeyFromPubKey(identity)
+		if _, exists := seenIdentities[idKey]; exists {
+			return ErrDuplicateAccounts
+		}
+		seenIdentities[idKey] = struct{}{}
 		perm := AclPermissions(ch.Permissions)
 		if perm.IsOwner() {
 			return ErrIsOwner
